@@ -1,6 +1,6 @@
 (* C11 - Heikin-Ashi conversion follows its recurrence under every append schedule. *)
 From Coq Require Import ZArith List Bool.
-From Hexital Require Import Base.Prelude Base.Num Model.Manager Model.Candle Inst.ZInst Proofs.HAProofs.
+From Hexital Require Import Base.Prelude Base.Num Model.Manager Model.Candle Inst.ZInst Proofs.HAProofs Proofs.PipelineProofs.
 Import ListNotations.
 
 (* Batch: converting a list of raw (untagged) candles yields the recurrence of the
@@ -50,3 +50,16 @@ Proof.
   split; reflexivity.
 Qed.
 Print Assumptions C11_old_resume_index_refuted.
+
+(* composed with a collapsing timeframe: the whole manager pipeline (collapse, then convert
+   from the resume index) under appends.  D is the manager's state after the raw stream xs;
+   appending ys re-collapses D ++ ys - converted buckets followed by raw candles - and
+   converts again; the result is the pipeline over the whole raw stream.  pristine: the
+   incoming candles carry no conversion of their own. *)
+Theorem C11_timeframe_pipeline_incremental :
+  forall (O : NumOps) (tf : Z) (xs ys D : list (cd (payload O))),
+  (0 < tf)%Z -> sorted (payload O) (xs ++ ys) -> pristine O (xs ++ ys) ->
+  tasks O (tf_ha_cfg tf) xs = Ok D ->
+  mgr_append O (tf_ha_cfg tf) D ys = tasks O (tf_ha_cfg tf) (xs ++ ys).
+Proof. intros O tf xs ys D Htf Hs Hp HD. eapply manager_incremental; eassumption. Qed.
+Print Assumptions C11_timeframe_pipeline_incremental.
